@@ -357,7 +357,7 @@ def run_property(pid, tier, seed, t0, pin=False):
         for u in runs:
             names = sorted({ob["name"] for ob in u.obs if ob["kind"] in ("fn", "lemma") and ob["success"]})
             with open(baseline_path(u.unit, u.model), "w") as f:
-                json.dump({"obligations": names}, f, indent=1)
+                json.dump({"obligations": names, "anchor_lines": u.gen.anchor_lines}, f, indent=1)
         undecided = [x for x in undecided if "allow-list" not in x]
 
     # ---- E2 Kani (bounded / complete harnesses)
@@ -401,6 +401,10 @@ def run_property(pid, tier, seed, t0, pin=False):
     for (u, f, base_obs) in grouped.values():
         ob_id = f"{u.unit}@{u.model}:{f['name']}"
         was_discharged = base_obs is not None and f["name"] in base_obs
+        if u.gen.rewrites.get("R1.droppedhint"):
+            # an anchored statement disappeared and its proof hint was dropped: a failed proof in this
+            # unit is then only trusted together with a failing input on the real code
+            was_discharged = False
         rp = p.get("replays", {}).get(f["name"]) or p.get("replays", {}).get("*")
         found, out = (None, "")
         if rp:
